@@ -89,11 +89,28 @@ class _Pruner(ast.NodeTransformer):
         if _is_xp_ne_np(node.test) and node.orelse:
             self.pruned += 1
             return node.orelse
+        if _is_xp_eq_np(node.test) and not node.orelse:
+            # `if xp == np: return cpu(..)` followed by the GPU code: on the CPU build the test holds, what follows the return is dropped below
+            self.pruned += 1
+            return node.body
         if _is_xp_ne_np(node.test) and not node.orelse:
             # `if xp != np: <GPU work>; return ...` followed by the CPU code: the whole statement is the GPU arm
             self.pruned += 1
             return [ast.copy_location(ast.Pass(), node)]
         return node
+
+
+def _drop_unreachable(tree):
+    """statements that follow an unconditional return / raise / break / continue in the same block never run (they appear when the
+    CPU-build pruning splices the body of `if xp == np: return ..` into the enclosing block)"""
+    for n in ast.walk(tree):
+        for fld in ("body", "orelse", "finalbody"):
+            blk = getattr(n, fld, None)
+            if isinstance(blk, list):
+                for i, st in enumerate(blk):
+                    if isinstance(st, (ast.Return, ast.Raise, ast.Break, ast.Continue)) and i + 1 < len(blk):
+                        del blk[i + 1:]
+                        break
 
 
 # ----------------------------------------------------------------------------------------------
@@ -296,6 +313,20 @@ def _canon_numpy_alias(tree):
     return tree
 
 
+class _InlineXp(ast.NodeTransformer):
+    """`device.xp.clip(..)` / `backend.get_array_module(x).zeros(..)` used without a local name are read like `xp.clip(..)` / `xp.zeros(..)`:
+    the array module (numpy on the analysed CPU build) has one spelling whether or not it is bound to a local first"""
+    def visit_Attribute(self, node):
+        self.generic_visit(node)
+        v = node.value
+        if isinstance(v, ast.Attribute) and v.attr == "xp" and isinstance(v.ctx, ast.Load):
+            node.value = ast.copy_location(ast.Name("xp", ast.Load()), v)
+        elif isinstance(v, ast.Call) and ((isinstance(v.func, ast.Attribute) and v.func.attr == "get_array_module") or
+                                          (isinstance(v.func, ast.Name) and v.func.id == "get_array_module")):
+            node.value = ast.copy_location(ast.Name("xp", ast.Load()), v)
+        return node
+
+
 class _StripAnnotations(ast.NodeTransformer):
     """type annotations carry no behaviour: `x: T = v` is read as `x = v`, a bare declaration `x: T` as nothing, and annotations of parameters
     and results are dropped (so adding or changing type hints changes nothing any rule sees)"""
@@ -348,8 +379,10 @@ class Model:
                 self._digest.update(src.encode())
                 raw = ast.parse(src, filename=path)  # SyntaxError -> analysis error upstream
                 pr = _Pruner()
-                tree = pr.visit(_canon_numpy_alias(_StripAnnotations().visit(copy.deepcopy(raw))))
+                tree = pr.visit(_InlineXp().visit(_canon_numpy_alias(_StripAnnotations().visit(copy.deepcopy(raw)))))
                 tree = _expand_kw_splats(tree)
+                if pr.pruned:
+                    _drop_unreachable(tree)
                 ast.fix_missing_locations(tree)
                 self.pruned_arms += pr.pruned
                 self.mods[name] = Mod(name, rel, src, tree, raw, pr.pruned)
